@@ -6,7 +6,7 @@
 use dusk_plonk::prelude::*;
 use serde_json::{json, Value};
 
-use crate::Ctx;
+use crate::{BlsScalar, Ctx};
 
 /// Snapshot with scalars rendered through `ctx.scalar_json` (node ids in the
 /// symbolic build, hex in the real build).
@@ -41,6 +41,28 @@ fn wires(c: &mut Composer, ctx: &mut Ctx, pattern: &str, inputs: &mut Vec<(Strin
         out[i] = w;
     }
     out
+}
+
+/// extended point with free coordinates `<p>u <p>v <p>z <p>t1 <p>t2`
+fn sym_extended(ctx: &mut Ctx, p: &str) -> JubJubExtended {
+    JubJubExtended::from_raw_unchecked(
+        ctx.var(&format!("{p}u")),
+        ctx.var(&format!("{p}v")),
+        ctx.var(&format!("{p}z")),
+        ctx.var(&format!("{p}t1")),
+        ctx.var(&format!("{p}t2")),
+    )
+}
+
+/// witness point with free coordinates `<p>x <p>y`
+fn wpoint(c: &mut Composer, ctx: &mut Ctx, p: &str, inputs: &mut Vec<(String, usize)>) -> WitnessPoint {
+    let xn = format!("{p}x");
+    let yn = format!("{p}y");
+    let x = c.append_witness(ctx.var(&xn));
+    let y = c.append_witness(ctx.var(&yn));
+    inputs.push((xn, x.index()));
+    inputs.push((yn, y.index()));
+    Composer::verif_witness_point(x, y)
 }
 
 fn sym_constraint(ctx: &mut Ctx, w: [Witness; 4], with_pi: bool) -> Constraint {
@@ -138,6 +160,76 @@ pub fn component(
                 c.component_select_zero(bit, a)
             };
             ret.push(("out".into(), json!(o.index())));
+        }
+        // ---- curve-point components (symbolic coordinates) --------------------
+        "append_point" | "append_public_point" | "append_constant_point" => {
+            let e = sym_extended(ctx, "p");
+            let r = match name {
+                "append_point" => c.append_point(e).map(|w| (*w.x(), *w.y())),
+                "append_public_point" => c.append_public_point(e).map(|w| (*w.x(), *w.y())),
+                _ => c.append_constant_point(e).map(|w| (*w.x(), *w.y())),
+            };
+            match r {
+                Ok((x, y)) => ret.push(("out".into(), json!([x.index(), y.index()]))),
+                Err(e) => err = Some(format!("{:?}", e)),
+            }
+        }
+        "assert_equal_public_point" => {
+            let wp = wpoint(c, ctx, "q", &mut inputs);
+            let e = sym_extended(ctx, "p");
+            if let Err(e) = c.assert_equal_public_point(wp, e) {
+                err = Some(format!("{:?}", e));
+            }
+        }
+        "assert_equal_point" => {
+            let a = wpoint(c, ctx, "p", &mut inputs);
+            let b = wpoint(c, ctx, "q", &mut inputs);
+            c.assert_equal_point(a, b);
+        }
+        "assert_torsion_free_point" => {
+            let wp = wpoint(c, ctx, "p", &mut inputs);
+            let t = c.assert_torsion_free_point(wp);
+            ret.push(("out".into(), json!([t.x().index(), t.y().index()])));
+        }
+        "component_add_point" | "component_sub_point" => {
+            let a = TorsionFreeWitnessPoint::new_unchecked(wpoint(c, ctx, "p", &mut inputs));
+            let b = if pat == "00" { a } else { TorsionFreeWitnessPoint::new_unchecked(wpoint(c, ctx, "q", &mut inputs)) };
+            let r = if name == "component_add_point" { c.component_add_point(a, b) } else { c.component_sub_point(a, b) };
+            ret.push(("out".into(), json!([r.x().index(), r.y().index()])));
+        }
+        "component_neg_point" => {
+            let a = TorsionFreeWitnessPoint::new_unchecked(wpoint(c, ctx, "p", &mut inputs));
+            let r = c.component_neg_point(a);
+            ret.push(("out".into(), json!([r.x().index(), r.y().index()])));
+        }
+        "component_select_identity" => {
+            let bit = one(c, ctx, "bit", &mut inputs);
+            let a = TorsionFreeWitnessPoint::new_unchecked(wpoint(c, ctx, "p", &mut inputs));
+            let r = c.component_select_identity(bit, a);
+            ret.push(("out".into(), json!([r.x().index(), r.y().index()])));
+        }
+        "component_select_point" => {
+            let bit = one(c, ctx, "bit", &mut inputs);
+            let a = wpoint(c, ctx, "p", &mut inputs);
+            let b = wpoint(c, ctx, "q", &mut inputs);
+            let r = c.component_select_point(bit, a, b);
+            ret.push(("out".into(), json!([r.x().index(), r.y().index()])));
+        }
+        "add_point_gates" => {
+            // untyped addition seam (arbitrary coordinate pairs)
+            let a = wpoint(c, ctx, "p", &mut inputs);
+            let b = if pat == "00" { a } else { wpoint(c, ctx, "q", &mut inputs) };
+            let r = c.verif_add_point_gates(a, b);
+            ret.push(("out".into(), json!([r.x().index(), r.y().index()])));
+        }
+        "generator_check" => {
+            // the native validity check of component_mul_generator (scalar witness concrete)
+            let s = c.append_witness(BlsScalar::from(5u64));
+            let e = sym_extended(ctx, "p");
+            match c.component_mul_generator(s, e) {
+                Ok(w) => ret.push(("out".into(), json!([w.x().index(), w.y().index()]))),
+                Err(e) => err = Some(format!("{:?}", e)),
+            }
         }
         _ => {
             err = Some(format!("unknown component {name}"));
